@@ -93,10 +93,12 @@ PROOF_UNITS = {
               for m in ('removal', 'accum') for t in ('int', 'none')]
            + [('contracts.neighbours', 'GetNodeSnapshots', (cls,), {'mode': m, 't': 'none'}) for cls in ('DynGraph', 'DynDiGraph') for m in ('removal', 'accum')],
     'C09': [('contracts.writers', 'GenerateSnapshots', (cls,), {}) for cls in ('DynGraph', 'DynDiGraph')]
-           + [('contracts.parsers', 'ParseSnapshots', (cls,), {}) for cls in ('DynGraph', 'DynDiGraph')],
+           + [('contracts.parsers', 'ParseSnapshots', (cls,), {}) for cls in ('DynGraph', 'DynDiGraph')]
+           + [('contracts.parsers', 'FileWriter', (cls, 'write_snapshots'), {}) for cls in ('DynGraph', 'DynDiGraph')],
     'C16': [('contracts.convert', 'ToDirected', (), {})] + [('contracts.ctor', 'Init', ('DynDiGraph',), {'edge_removal': 'default'})],
     'C10': [('contracts.writers', 'GenerateInteractions', (cls,), {}) for cls in ('DynGraph', 'DynDiGraph')]
            + [('contracts.parsers', 'ParseInteractions', (cls,), {}) for cls in ('DynGraph', 'DynDiGraph')]
+           + [('contracts.parsers', 'FileWriter', (cls, 'write_interactions'), {}) for cls in ('DynGraph', 'DynDiGraph')]
            + [('contracts.stream', 'StreamInteractions', (cls,), {}) for cls in ('DynGraph', 'DynDiGraph')],
     'C11': [('contracts.writers', 'NodeLinkData', (cls,), {}) for cls in ('DynGraph', 'DynDiGraph')]
            + [('contracts.parsers', 'NodeLinkGraph', (fl,), {}) for fl in ('undirected', 'directed')],
